@@ -113,3 +113,51 @@ def tt_contour_cycle(coords, flags_on):
         else:
             cur.append(pts[i])
     return (start, segs)
+
+
+def tt_contour_cycle_flags(coords, flags):
+    """TrueType contour with raw flags (bit0 on-curve, bit7 cubic off-curve, glyf format 1) -> (start, segs)"""
+    n = len(coords)
+    if n == 0:
+        return None
+    on = [bool(f & 1) for f in flags]
+    if not any(f & 0x80 for f in flags):
+        return tt_contour_cycle(coords, on)
+    pts = [(float(x), float(y)) for x, y in coords]
+    if not any(on):
+        # all cubic off-curves: start at the implied on-curve between the last and first pairs
+        start = ((pts[-1][0] + pts[0][0]) / 2, (pts[-1][1] + pts[0][1]) / 2)
+        order = list(range(n))
+        closing_on = start
+        i0 = None
+    else:
+        i0 = on.index(True)
+        start = pts[i0]
+        order = [(i0 + 1 + k) % n for k in range(n)]
+        closing_on = None
+    segs = []
+    cur = []
+    curcubic = False
+
+    def emit(offs, cubic, end):
+        if not offs:
+            segs.append(("line", [end]))
+        elif not cubic:
+            segs.append(("qcurve", offs + [end]))
+        else:
+            assert len(offs) % 2 == 0, "odd number of cubic off-curve points"
+            for k in range(0, len(offs), 2):
+                last = k + 2 == len(offs)
+                e = end if last else ((offs[k + 1][0] + offs[k + 2][0]) / 2, (offs[k + 1][1] + offs[k + 2][1]) / 2)
+                segs.append(("curve", [offs[k], offs[k + 1], e]))
+
+    for i in order:
+        if on[i]:
+            emit(cur, curcubic, pts[i])
+            cur = []
+        else:
+            cur.append(pts[i])
+            curcubic = bool(flags[i] & 0x80)
+    if cur:
+        emit(cur, curcubic, closing_on if closing_on is not None else start)
+    return (start, segs)
